@@ -10,7 +10,9 @@ import json
 import logging
 import sys
 
-sys.path.insert(0, "/repo")
+import os
+
+sys.path.insert(0, os.environ.get("NETCONAN_REPO", "/repo"))
 logging.disable(logging.CRITICAL)
 
 
